@@ -7,6 +7,7 @@ import Mutiny.Model.Wake
 import Mutiny.Model.Multi
 import Mutiny.Model.MmapLog
 import Mutiny.Model.Exec
+import Mutiny.Model.ZeroCopy
 /-! Uniform interface of the executable models for the replay driver. -/
 namespace Driver
 
@@ -267,6 +268,7 @@ def multiMachine : Machine Multi.St where
     | "send", [ev]   => if idle then some (Multi.apply s (.send t (nat ev))) else none
     | "poll", [id]   => if idle then some (Multi.apply s (.poll t (nat id))) else none
     | "release", [ev] => some (Multi.apply s (.release (nat ev)))
+    | "cancel", [id]  => some (Multi.apply s (.cancel (nat id)))
     | _, _ => none
   tag s t := match Multi.tagOf s.MAX (s.thr t) with
     | some ("mc.fan.read", v) => if s.flavor == .arc && v == s.MAX then some ("mc.fan.read", 4294967295) else some ("mc.fan.read", v)
@@ -346,6 +348,28 @@ def execMachine : Machine ExecD where
   describe d _ := reprStr d.s
   cmpVal _ := false
 
+/-! ### M4 ZeroCopy (non-blocking atomic queue: pool free list + ring of ids) -/
+open Mutiny in
+def zeroCopyMachine : Machine ZeroCopy.St where
+  call s t op args :=
+    let idle := s.thr t == .idle
+    match op, args with
+    | "enq", [v] => if idle then some (ZeroCopy.apply s (.enqueue t v.toNat!)) else none
+    | "deq", []  => if idle then some (ZeroCopy.apply s (.dequeue t)) else none
+    | "len", []  => if idle then some (ZeroCopy.apply s (.len t)) else none
+    | _, _ => none
+  tag s t := ZeroCopy.tagOf s t
+  step s t := ZeroCopy.step s t
+  result s t := match s.thr t with
+    | .done r => some r.show
+    | _ => none
+  ack s t := ZeroCopy.apply s (.ack t)
+  observe s k := match k with
+    | "abs" => some (showList (ZeroCopy.abs s))
+    | _ => none
+  describe s t := reprStr (s.thr t) ++ s!" free: {reprStr (s.free.thr t)} h={s.free.head} t={s.free.tail} e={s.free.enqTail} d={s.free.deqHead}; q: {reprStr (s.q.thr t)} h={s.q.head} t={s.q.tail} e={s.q.enqTail} d={s.q.deqHead}"
+  cmpVal tag := tag != "am.len" && tag != "am.p.fetch" && tag != "am.c.fetch" && tag != "am.c.chkhead"
+
 def lookup (kv : List (String × String)) (k : String) : Option String :=
   (kv.find? (·.1 == k)).map (·.2)
 
@@ -356,6 +380,7 @@ def mkMachine (kv : List (String × String)) : Option AnyMachine :=
   | some "lockring" => some { σ := _, m := lockRingMachine, s := Mutiny.LockRing.init n }
   | some "incavg" => some { σ := _, m := incAvgMachine, s := Mutiny.IncAvg.init }
   | some "stack" => some { σ := _, m := stackMachine, s := Mutiny.Stack.init n }
+  | some "zerocopy" => some { σ := _, m := zeroCopyMachine, s := Mutiny.ZeroCopy.init n }
   | some "exec" =>
       some { σ := _, m := execMachine, s := { cfg := { futures := (lookup kv "futures") == some "1", limit := ((lookup kv "limit").getD "1").toNat! }, s := {}, counts := none } }
   | some "mmaplog" => some { σ := _, m := mmapMachine, s := Mutiny.MmapLog.init }
